@@ -22,6 +22,11 @@ Record rcase := {
   rk_ops : list (N * rop * rimpl)
 }.
 
+(* n documents 0, 1, 2, ... each `field 0 in [1]`, accepted: large cases name them instead of spelling them out *)
+Definition bulk_docs (n : N) : list (doc * iadd) :=
+  map (fun i => (Build_doc (Z.of_nat i) [[(0%N, [Build_expr true OpEQ (VSlice TSint false [VInt KI 1%Z])])]], IAddOk))
+      (seq 0 (N.to_nat n)).
+
 Definition rfields (c : rcase) : list fdesc :=
   map (fun f => {| fd_name := fst f; fd_cont := match fst (snd f) with RDefault => CDefault | RAc => CAc end;
                    fd_parser := snd (snd f) |}) (rk_fields c).
